@@ -1232,6 +1232,7 @@ func Run(ctx *core.Ctx) {
 		"and Inverse().Inverse() (80% of the calls on the hosts only one rule matches), 2-3 rounds with a fresh matcher, every answer judged, then every host asked again one call at a time; one evaluation per case, " +
 		"non-trivial when the list has two include rules or more, a rule behind the first one has such a host and at least two goroutines call; proxyconc cases (child process): such lists as deny- and direct-domains of a real proxy " +
 		"with an upstream proxy, 8-24 concurrent clients, every response judged, then one request per host one at a time; " +
+		"source cases: 1-4 rules from a pool in which most rules contain a comma or a double quote (counted repetition {n,m} / {n,}, a comma or a quote in a class), given to --deny-domains, --direct-domains or --mitm-domains as a config-file list (YAML, JSON, TOML), a config-file string, an environment variable, one flag per rule or one comma-separated flag, through the real command tree; the elements the flag holds afterwards and the matcher built from them are judged against the rules given on the hosts that tell each rule from its comma-split fragments; " +
 		"distinct = distinct canonical inputs")
 	ctx.Assume("Go's regexp package (parser, flag scoping, matching engines) is trusted: it is the per-rule oracle, and its flag-scoping rule is the modelled fact")
 	ctx.Assume("the localhost class of --proxy-localhost is: the name localhost and the hosts file's names of loopback addresses in any letter case, and every loopback or unspecified address net.ParseIP reads")
@@ -1320,6 +1321,15 @@ func Run(ctx *core.Ctx) {
 		}
 	}
 	stopConcChild()
+	// how a list ARRIVES: config-file list / string, environment, command line — rules with commas
+	for i, n := 0, ctx.N(160, 1600); i < n; i++ {
+		sc := genSrc(ctx.Rng.Sub())
+		runSrc(ctx, sc)
+		if i == 0 {
+			ctx.Sample(sc)
+		}
+	}
+	removeSrcDir(ctx)
 	for i := 0; i < nItem; i++ {
 		r := ctx.Rng.Sub()
 		ic := genItem(r)
@@ -1359,6 +1369,13 @@ func Replay(ctx *core.Ctx, raw json.RawMessage) {
 		runSite(ctx, sc)
 		if !inRun {
 			rig.RemoveBinary()
+		}
+	case "source":
+		var sc srcCase
+		json.Unmarshal(raw, &sc)
+		runSrc(ctx, sc)
+		if !inRun {
+			removeSrcDir(ctx)
 		}
 	case "conc":
 		var cc concCase
